@@ -131,9 +131,11 @@ class Sim:
         if k < 66:
             a = rng.below(n + 1)
             b = a + rng.below(n - a + 1)
+            if b == a and a < n and rng.chance(4, 5):
+                b = a + 1 + rng.below(n - a)
             if rng.chance(1, 6):
                 b = n
-            if rng.chance(1, 10):
+            if rng.chance(1, 12):
                 b = a
             self.sz[r] -= b - a
             self.count("erar", "empty" if a == b else "tail" if b == n else "inner")
@@ -398,13 +400,13 @@ def batches(rng, tier):
     yield Batch("systematic-single-ops", sys_ops, kind="history", exhaustive=True,
                 note="all positions/counts/aliases for sizes 0..%d x spare capacity" % (4 if thorough else 3))
     stats = {}
-    ops = histories(rng.fork("vec"), 2500 if thorough else 300, 60 if thorough else 30, stats, 8)
+    ops = histories(rng.fork("vec"), 30000 if thorough else 1500, 60 if thorough else 30, stats, 8)
     yield Batch("vector-histories", ops, kind="history", note="random histories; generator distribution: " + fmt_stats(stats))
     stats = {}
-    ops = buffer_histories(rng.fork("buf"), 1500 if thorough else 250, 14 if thorough else 10, stats)
+    ops = buffer_histories(rng.fork("buf"), 15000 if thorough else 800, 14 if thorough else 10, stats)
     yield Batch("buffer-histories", ops, kind="history", note="buffer histories ending in to_raw_vector; distribution: " + fmt_stats(stats))
     stats = {}
-    ops = histories(rng.fork("long"), 300 if thorough else 40, 120 if thorough else 60, stats, 30)
+    ops = histories(rng.fork("long"), 3000 if thorough else 150, 120 if thorough else 60, stats, 30)
     yield Batch("mixed-long-histories", ops, kind="history", note="longer mixed vector/buffer histories; distribution: " + fmt_stats(stats))
 
 
